@@ -67,6 +67,16 @@ def unrename_term(t, inv):
     return t
 
 
+def blank_error_terms(t):
+    """error(Formal, Context) terms caught into an answer: the context is implementation defined and the Formal of an
+    arithmetic error may be any of several (compared exactly only for uncaught balls); keep just the error/2 shell"""
+    if t[0] == 'c':
+        if t[1] == 'error' and len(t[2]) == 2:
+            return ('a', '$error')
+        return ('c', t[1], tuple(blank_error_terms(x) for x in t[2]))
+    return t
+
+
 def clause_text(h, b):
     if b == ('a', 'true'):
         return terms.text(h) + "."
@@ -137,6 +147,8 @@ class Prog:
             return "expected %d answers, got %d (%s)" % (len(exp), len(proper), str(got)[:200])
         for i, (e, a) in enumerate(zip(exp, proper)):
             g = self.got_answer(a)
+            if g is not None:
+                e, g = blank_error_terms(e), blank_error_terms(g)
             if g is None or not terms.variant(e, g):
                 return "answer %d: expected %s got %s" % (i + 1, terms.show(e), terms.show(g) if g else a)
         if status == "done":
@@ -150,8 +162,11 @@ class Prog:
                 return "expected ball %s, got %s" % (terms.show(ball), str(got)[:200])
             gb = unrename_term(terms.from_h(term.get("e") or term.get("x")), self.inv)
             if ball[0] == 'c' and ball[1] == 'error' and len(ball[2]) == 2:
-                if not (gb[0] == 'c' and gb[1] == 'error' and len(gb[2]) == 2 and terms.variant(ball[2][0], gb[2][0])):
-                    return "expected error %s, got %s" % (terms.show(ball[2][0]), terms.show(gb))
+                # several erroneous subterms of one arithmetic expression: any of their errors is admissible
+                alts = [ball] + [terms.from_tla(t) for t in self.vec.get("balts", [])]
+                if not (gb[0] == 'c' and gb[1] == 'error' and len(gb[2]) == 2 and
+                        any(terms.variant(a[2][0], gb[2][0]) for a in alts)):
+                    return "expected error %s, got %s" % (" or ".join(terms.show(a[2][0]) for a in alts), terms.show(gb))
             elif not terms.variant(ball, gb):
                 return "expected ball %s, got %s" % (terms.show(ball), terms.show(gb))
         return None
